@@ -10,5 +10,6 @@ func main() {
 		"C04": chansim.C04(),
 		"C05": chansim.C05(),
 		"C10": chansim.C10(),
+		"C11": chansim.C11(),
 	})
 }
